@@ -252,6 +252,15 @@ def run(tier, seed):
     par.pmap(work_opts, optsel, stats=st)
     par.pmap(work_broken, broken_tasks(tier), stats=st)
     par.pmap(work_policy, policy_cases(), stats=st, procs=1)
+    vcases = []
+    for sel in H.pick(sorted(sev), seed, 12 if tier == 'quick' else 60):
+        for opts in H.pick(OPTSETS, seed + len(vcases), 2):
+            vcases.append({'label': 'sev %s %s' % (sel, opts), 'opts': list(opts), 'make': (lambda sel=sel: make_server(sel))})
+    for arch, plan, fmt in H.pick([t for t in broken_tasks(tier) if t[0] != 'G'], seed, 16 if tier == 'quick' else 80):
+        a = F.ARCHETYPES[arch]
+        vcases.append({'label': 'broken %s %s %s' % (arch, plan, fmt), 'opts': ['-n'] + a['opts'] + (['-j'] if fmt == 'json' else []),
+                       'make': (lambda a=a: a['make'](True)), 'faults': {tuple(k): tuple(f) for k, f in plan}})
+    validated = H.validate_traces(vcases, st)
     return evidence.finish(
         PID, tier, seed, st, t0,
         rule='severity classes {fail, fail+warn, warn, clean, unknown} per category (representatives from the DB: %s); %s; '
@@ -261,7 +270,7 @@ def run(tier, seed):
                  if tier == 'quick' else 'all lists of length 0..2 in all four categories crossed', 2 if tier == 'quick' else 3,
                  len(OPTSETS), '8th' if tier == 'quick' else '1st'),
         assumptions=['"finding" = a [fail]/[warn]-tagged note of the text report', 'representatives stand for their severity class'],
-        exhaustive=True)
+        exhaustive=True, traces_validated=validated)
 
 
 def replay(path):
